@@ -1090,8 +1090,8 @@ func init() {
 			return 8*reps + len(c06Points)*4 + 8 + 8
 		},
 		CaseTimeout: 240e9,
-		Rule: "built with the Go race detector. Case kinds: (stress) 8 configurations {node cache 0/3/100/10000} x {fast index on/off} x {sync pruning, background pruning with the SetCommitting/UnsetCommitting protocol} x {MemDB, MemDB with unsynchronised yields around storage calls, GoLevelDB} x readers in {2,8,16}, repeated 4x (quick) / 30x (thorough): one writer (Set/Remove/SaveVersion/DeleteVersionsTo of versions nobody reads) and N readers that obtain committed versions with GetImmutable and run Get, GetWithIndex, Has, Iterator, IterateRange, GetProof (verified against the commit hash), Export, Hash, GetVersioned - every result compared with the snapshot published at commit; 2 scout goroutines open arbitrary version numbers and the commit/prune/open history is checked with porcupine against the per-version model uncommitted->committed->deleted; background pruning must reach its target within a bound after the writer stops (otherwise inconclusive). " +
-			"(hook) oracle mode: the writer is parked at a verif yield point (after the batch commit and before the latest-version update in SaveVersion; between per-version steps of DeleteVersionsTo; between the committing check and the lock in pruning; in Node.clone) and every reader operation type runs on every published version while it is parked - hook points x reader operations is enumerated. (pause) a reader of the latest version is parked INSIDE its storage read (fast-index entry or node, via a pausing storage wrapper on a freshly opened handle with cold caches) while the writer commits a change of the same key; the reader must return its version's value and afterwards every version must read exactly. (pin) a version with an open Exporter (plus a second, double-closed export of it) cannot be deleted from another goroutine, its stream is R's complete post-order stream, and the deletion succeeds after Close. " +
+		Rule: "built with the Go race detector. Case kinds: (stress) 8 configurations {node cache 0/3/100/10000} x {fast index on/off} x {sync pruning, background pruning with the SetCommitting/UnsetCommitting protocol} x {MemDB, MemDB with unsynchronised yields around storage calls, GoLevelDB} x readers in {2,8,16}, repeated 4x (quick) / 30x (thorough): one writer (Set/Remove/SaveVersion/DeleteVersionsTo of versions nobody reads) and N readers that obtain committed versions with GetImmutable and run Get, GetWithIndex, Has, Iterator, IterateRange, GetProof (verified against the commit hash), Export, Hash, GetByIndex - every result compared with the snapshot published at commit; 2 scout goroutines open arbitrary version numbers and the commit/prune/open history is checked with porcupine against the per-version model uncommitted->committed->deleted; background pruning must reach its target within a bound after the writer stops (otherwise inconclusive). " +
+			"(hook) oracle mode: the writer is parked at a verif yield point (in SaveVersion after the batch commit, before SaveVersion returns; between per-version steps of DeleteVersionsTo; between the committing check and the lock in pruning; in Node.clone) and every reader operation type runs on every published version while it is parked - hook points x reader operations is enumerated. (pause) a reader of the latest version is parked INSIDE its storage read (fast-index entry or node, via a pausing storage wrapper on a freshly opened handle with cold caches) while the writer commits a change of the same key; the reader must return its version's value and afterwards every version must read exactly. (pin) a version with an open Exporter (plus a second, double-closed export of it) cannot be deleted from another goroutine, its stream is R's complete post-order stream, and the deletion succeeds after Close. " +
 			"All race-detector reports of all workers are collected from the race logs, deduplicated by the pair of first iavl frames and reported if both accesses are in iavl. distinct = hash(kind, configuration, repetition); non-trivial = >=20 commits overlapped by >=100 reader operations, or a parked overlap, or a pin check.",
 		Assumptions: []string{"only schedules that happened are judged; race reports are schedule dependent", "the harness' registry (which versions are published / in use) is the monitor's own mutex-guarded state", "readers only read versions the writer has not asked to delete (as the property states)"},
 		WorkerEnv: func(work string, shard int) []string {
@@ -1101,6 +1101,7 @@ func init() {
 			kind, cfg, point := c06Config(c.Index, c.Tier)
 			c.Res.Digest = fw.DigestOf(kind, cfg, point, c.Index)
 			c.Res.Sample = map[string]any{"kind": kind, "config": cfg.String(), "hook_point": point}
+			c.State(kind + "|" + point + "|" + fmt.Sprintf("cache=%d fast=%v async=%v %s readers=%d pre=%v", cfg.cache, cfg.fast, cfg.async, cfg.backend, cfg.readers, cfg.prepopulate))
 			switch kind {
 			case "stress":
 				runConcurrent(c, cfg)
